@@ -45,7 +45,6 @@ type job struct {
 	Shard   int    `json:"shard"`
 	NValues int    `json:"nvalues"`
 	Skip    int    `json:"skip"` // records already evaluated by a child that died
-	Single  string `json:"single,omitempty"`
 }
 
 type result struct {
@@ -58,6 +57,7 @@ type result struct {
 	Inputs     int64                `json:"inputs"`
 	Uniq       int64                `json:"uniq"`
 	Sample     interface{}          `json:"sample,omitempty"`
+	Cases      []interface{}        `json:"cases,omitempty"`
 }
 
 func main() {
@@ -79,7 +79,6 @@ func main() {
 type tierCfg struct {
 	valuesPerCodec int
 	shardValues    int
-	bigExtra       bool
 }
 
 func parentMain() {
@@ -91,7 +90,7 @@ func parentMain() {
 	}
 	cfg := tierCfg{valuesPerCodec: 3000, shardValues: 500}
 	if !r.Quick() {
-		cfg = tierCfg{valuesPerCodec: 30000, shardValues: 1000, bigExtra: true}
+		cfg = tierCfg{valuesPerCodec: 30000, shardValues: 1000}
 	}
 	if len(codecs) != 29 {
 		r.Inconclusive(fmt.Sprintf("expected 29 generated codecs in the hook tables, found %d", len(codecs)))
@@ -179,8 +178,12 @@ func parentMain() {
 				inputs += out.Inputs
 				uniq += out.Uniq
 				r.Eval(out.Inputs)
-				if out.Sample != nil && jb.Shard == 0 && jb.Kind == "small" && jb.Codec%6 == 0 {
-					r.Sample(out.Sample)
+				if jb.Shard == 0 && jb.Kind == "small" && (jb.Codec == 4 || jb.Codec == 13 || jb.Codec == 15) {
+					for q, cs := range out.Cases {
+						if q < 2 {
+							r.Sample(cs)
+						}
+					}
 				}
 				sort.Slice(out.Violations, func(a, b int) bool { return out.Violations[a].Size < out.Violations[b].Size })
 				for _, v := range out.Violations {
@@ -262,10 +265,9 @@ func parentMain() {
 		if limited > 0 {
 			r.Count(c.Name+".maxlen_fields_hit", int64(hit))
 			r.Floor(c.Name+".maxlen_fields_hit", int64(limited))
-			r.Floor(c.Name+".kind.maxlen", 3)
+			r.Floor(c.Name+".kind.maxlen", 2)
 			r.Floor(c.Name+".encode_maxlen_rejected", int64(limited))
 		}
-		r.Count(c.Name+".walker_mismatch", 0)
 		if r.Get(c.Name+".walker_mismatch") > 0 {
 			r.Inconclusive("harness layout walker disagrees with the reference encoding for " + c.Name)
 		}
@@ -313,7 +315,7 @@ func openProgress(dir string) *progress {
 	return p
 }
 
-func (p *progress) set(idx int)   { binary.LittleEndian.PutUint64(p.page[0:8], uint64(int64(idx))) }
+func (p *progress) set(idx int)  { binary.LittleEndian.PutUint64(p.page[0:8], uint64(int64(idx))) }
 func (p *progress) stage(st int) { p.page[8] = byte(st) }
 
 func readProgress(dir string) (int, int) {
